@@ -122,6 +122,10 @@ pub fn level_key(conn: u64, level: u64, sender: Side) -> u64 {
     h64(conn, &[&level.to_be_bytes(), &[sender as u8]])
 }
 
+pub fn session_key(conn: u64, nonce: u64) -> u64 {
+    h64(conn, &[b"session", &nonce.to_be_bytes()])
+}
+
 pub fn initial_keys(dcid: &ConnectionId, side: Side, limits: Limits) -> Keys {
     let k = conn_key(dcid);
     keys(level_key(k, 0, side), level_key(k, 0, !side), limits)
@@ -173,6 +177,9 @@ impl SimClientConfig {
 }
 
 pub struct SimServerConfig {
+    /// per-session nonce source: handshake and 1-RTT keys depend on it (like a TLS server random),
+    /// so packets of an earlier connection attempt with the same Initial DCID do not authenticate
+    pub next_nonce: AtomicU64,
     pub accept_0rtt: bool,
     /// Extra bytes in the server's Handshake flight (stands in for certificate chain size)
     pub flight_pad: usize,
@@ -182,7 +189,7 @@ pub struct SimServerConfig {
 
 impl SimServerConfig {
     pub fn new() -> Self {
-        Self { accept_0rtt: false, flight_pad: 0, limits: Limits::default(), tamper: Tamper::default() }
+        Self { next_nonce: AtomicU64::new(1), accept_0rtt: false, flight_pad: 0, limits: Limits::default(), tamper: Tamper::default() }
     }
 }
 
@@ -196,6 +203,7 @@ pub struct Sess {
     gen: u64,
     got_hd: bool,
     conn: AtomicU64,
+    nonce: u64,
     limits: Limits,
     tamper: Tamper,
     // client
@@ -236,8 +244,12 @@ fn alert(desc: u8, why: &str) -> TransportError {
 }
 
 impl Sess {
+    /// key material for handshake and 1-RTT levels: Initial DCID key mixed with the session nonce
+    fn session_key(&self) -> u64 {
+        session_key(self.conn.load(Ordering::Relaxed), self.nonce)
+    }
     fn level_keys(&self, level: u64) -> Keys {
-        let c = self.conn.load(Ordering::Relaxed);
+        let c = self.session_key();
         keys(level_key(c, level, self.side), level_key(c, level, !self.side), self.limits)
     }
 }
@@ -296,6 +308,10 @@ impl crypto::Session for Sess {
                     self.step = 1;
                 }
                 (Side::Client, 2, 100) => {
+                    if body.len() < 8 {
+                        return Err(alert(50, "sim: short server hello"));
+                    }
+                    self.nonce = u64::from_be_bytes(body[..8].try_into().unwrap());
                     self.step = 1;
                 }
                 (Side::Client, 3, 2) => {
@@ -380,7 +396,7 @@ impl crypto::Session for Sess {
                 Some(self.level_keys(2))
             }
             (Side::Server, 1) => {
-                msg(2, b"sh", buf);
+                msg(2, &self.nonce.to_be_bytes(), buf);
                 self.step = 2;
                 Some(self.level_keys(1))
             }
@@ -400,7 +416,7 @@ impl crypto::Session for Sess {
     }
     fn next_1rtt_keys(&mut self) -> Option<KeyPair<Box<dyn PacketKey>>> {
         self.gen += 1;
-        let c = self.conn.load(Ordering::Relaxed);
+        let c = self.session_key();
         Some(KeyPair {
             local: Box::new(TagKey { key: level_key(c, 2 + self.gen, self.side), limits: self.limits }),
             remote: Box::new(TagKey { key: level_key(c, 2 + self.gen, !self.side), limits: self.limits }),
@@ -421,7 +437,7 @@ impl crypto::Session for Sess {
         label: &[u8],
         context: &[u8],
     ) -> Result<(), crypto::ExportKeyingMaterialError> {
-        let c = self.conn.load(Ordering::Relaxed);
+        let c = self.session_key();
         for (i, chunk) in out.chunks_mut(16).enumerate() {
             let h = h128(c, &[label, context, &(i as u64).to_be_bytes()]);
             chunk.copy_from_slice(&h[..chunk.len()]);
@@ -456,6 +472,7 @@ impl crypto::ClientConfig for SimClientConfig {
             gen: 0,
             got_hd: false,
             conn: AtomicU64::new(0),
+            nonce: 0,
             limits: self.limits,
             tamper: self.tamper.clone(),
             server_name: server_name.to_string(),
@@ -488,6 +505,7 @@ impl crypto::ServerConfig for SimServerConfig {
             gen: 0,
             got_hd: false,
             conn: AtomicU64::new(0),
+            nonce: self.next_nonce.fetch_add(1, Ordering::Relaxed),
             limits: self.limits,
             tamper: self.tamper.clone(),
             server_name: String::new(),
